@@ -684,3 +684,20 @@ func VerifLinkTextToNumber(text string) (int, bool) { return pagination.VerifLin
 
 // VerifTreeClone is domutil.TreeClone.
 func VerifTreeClone(nodes []*html.Node) *html.Node { return domutil.TreeClone(nodes) }
+
+// VerifImageExtract runs the real image extractor on n (which it may rewrite, as in the converter's
+// clone) and returns the kind of element it produced ("", "image", "figure"), the image node and,
+// for a figure, the caption node.
+func VerifImageExtract(n *html.Node, pageURL *nurl.URL) (string, *html.Node, *html.Node) {
+	switch e := embed.NewImageExtractor(pageURL, nil).Extract(n).(type) {
+	case *webdoc.Image:
+		return "image", e.Element, nil
+	case *webdoc.Figure:
+		return "figure", e.Element, e.Caption
+	}
+	return "", nil, nil
+}
+
+// VerifLazyAtoms: what the image extractor's three regular expressions answer for an attribute
+// value (looks like an image source; looks like a srcset; is an acceptable src).
+func VerifLazyAtoms(v string) (bool, bool, bool) { return embed.VerifLazyAtoms(v) }
